@@ -566,13 +566,20 @@ Error:
         // tells its filter and sink workers to stop when it exits; a stream
         // whose camera refused to start has no source worker, so nobody
         // else ever would and stop/abort/shutdown would wait forever.
+        // A source worker (of this start, or one of the previous
+        // acquisition that is still winding down) stops the camera itself:
+        // let it finish first, as acquire_abort does, so that the camera is
+        // not stopped from two threads at once.
         video->source.is_stopping = 1;
-        camera_stop(video->source.camera);
+        channel_accept_writes(&video->sink.in, 0);
+        camera_execute_trigger(video->source.camera);
         thread_join(&video->source.thread);
+        camera_stop(video->source.camera);
         video->filter.is_stopping = 1;
         thread_join(&video->filter.thread);
         video->sink.is_stopping = 1;
         thread_join(&video->sink.thread);
+        channel_accept_writes(&video->sink.in, 1);
     }
     self->state = DeviceState_AwaitingConfiguration;
     return AcquireStatus_Error;
